@@ -81,6 +81,9 @@ def _impl_one(op):
     if kind == "DECSRC":
         _, mode, tname, cc, enc, data, src = op
         return canon.impl_dec(mode, tname, cc, enc, data, source=src)
+    if kind == "PRINT":
+        _, mode, tname, cc, enc, data = op
+        return canon.impl_print(mode, tname, cc, enc, data)
     if kind == "FRONT":
         return canon.impl_front(op[1], op[2])
     if kind == "VIA":
@@ -107,6 +110,8 @@ def op_line(op):
         return canon.dec_op(mode, tname, cc, enc, data)
     if op[0] == "FRONT":
         return f"FRONT {op[1]} {op[2].hex() or '-'}"
+    if op[0] == "PRINT":
+        return "PRINT" + canon.dec_op(*op[1:])[3:]
     if op[0] == "DECU":
         return "DECU" + canon.dec_op(*op[1:])[3:]
     if op[0] in ("INT", "BITS", "INTP"):
